@@ -59,7 +59,6 @@ Proof. induction 1; intros HQ; cbn; [reflexivity|]. rewrite (HQ _ _ H). f_equal.
 
 (** * splitAS *)
 
-Definition tsOf (a : asIn) : Z := match a_ts a with Some t => t | None => 1 end.
 Definition snrFor (mode : mpdType) (a : asIn) : option Z :=
   match mode with MTimelineNr => a_startNr a | _ => None end.
 
@@ -141,17 +140,19 @@ Definition periodDurOf (pph : Z) : Z := 3600 / pph.
 Lemma periodDur_pos pph : 1 <= pph <= 3600 -> 1 <= periodDurOf pph <= 3600.
 Proof. unfold periodDurOf. intros. split; [apply Z.div_le_lower_bound; lia|apply Z.div_le_upper_bound; lia]. Qed.
 
-(** The result of an accepted call: one period per k in [k0, k1], id P<k>, start k*P. *)
-Theorem splitPeriod_structure pph seg mode cont ast snr st now ases ps :
+(** The result of an accepted call: one period per k in the range [ka, kb] that [rangeOf] gives
+    ([k0, k1] itself without the widening repair), id P<k>, start k*P. *)
+Theorem splitPeriod_structure_gen w pph seg mode cont ast snr st now ases ps :
   1 <= pph <= 3600 -> 0 < seg -> ast <= st -> ast <= now ->
-  splitPeriod pph seg mode cont ast snr st now ases = Ok ps ->
+  splitPeriod w pph seg mode cont ast snr st now ases = Ok ps ->
   let P := periodDurOf pph in
   let k0 := (st - ast) / (P * 1000) in
   let k1 := (now - ast) / (P * 1000) in
   (P * 1000) mod seg = 0 /\
+  exists ka kb, rangeOf w mode P ases k0 k1 = Ok (ka, kb) /\
   Forall2 (fun k p => pd_nr p = k /\ pd_start p = k * P /\
                       Forall2 (fun a o => splitAS mode cont snr k P a = Ok o) ases (pd_as p))
-          (seqZ k0 (Z.to_nat (k1 - k0 + 1))) ps.
+          (seqZ ka (Z.to_nat (kb - ka + 1))) ps.
 Proof.
   intros Hpph Hseg Hst Hnow H P k0 k1.
   pose proof (periodDur_pos pph Hpph) as HP. fold P in HP.
@@ -163,18 +164,46 @@ Proof.
   destruct (negb (P * 1000 mod seg =? 0)) eqn:E; [discriminate|].
   replace (P * 1000 =? 0) with false in H by lia.
   rewrite (quot_pos (st - ast)), (quot_pos (now - ast)) in H by lia. fold k0 k1 in H.
-  destruct (k1 - k0 + 1 <? 0) eqn:E2; [discriminate|].
-  split; [lia|].
+  destruct (rangeOf w mode P ases k0 k1) as [[ka kb]| |] eqn:ER; cbn [bind fst snd] in H; try discriminate.
+  destruct (kb - ka + 1 <? 0) eqn:E2; [discriminate|].
+  split; [lia|]. exists ka, kb. split; [reflexivity|].
   apply mapM_ok in H.
   eapply Forall2_impl; [|exact H]. cbn. intros k p Hk. now apply periodOf_ok.
 Qed.
 
+Theorem splitPeriod_structure pph seg mode cont ast snr st now ases ps :
+  1 <= pph <= 3600 -> 0 < seg -> ast <= st -> ast <= now ->
+  splitPeriod false pph seg mode cont ast snr st now ases = Ok ps ->
+  let P := periodDurOf pph in
+  let k0 := (st - ast) / (P * 1000) in
+  let k1 := (now - ast) / (P * 1000) in
+  (P * 1000) mod seg = 0 /\
+  Forall2 (fun k p => pd_nr p = k /\ pd_start p = k * P /\
+                      Forall2 (fun a o => splitAS mode cont snr k P a = Ok o) ases (pd_as p))
+          (seqZ k0 (Z.to_nat (k1 - k0 + 1))) ps.
+Proof.
+  intros Hpph Hseg Hst Hnow H P k0 k1.
+  destruct (splitPeriod_structure_gen false pph seg mode cont ast snr st now ases ps Hpph Hseg Hst Hnow H)
+    as (Hm & ka & kb & ER & F).
+  fold P k0 k1 in ER, F. cbn in ER. inversion ER; subst. split; assumption.
+Qed.
+
 (** * Rejection and the periods-per-hour range *)
 
-Theorem splitPeriod_reject pph seg mode cont ast snr st now ases :
+Lemma widenRange_not_err P ases : forall k0 k1 e, widenRange P ases k0 k1 <> Err e.
+Proof.
+  induction ases as [|a l IH]; intros k0 k1 e; cbn [widenRange]; [discriminate|].
+  destruct (a_tl a); [|apply IH]. destruct (firstLast l0) as [[f la]|]; [|apply IH].
+  destruct (_ =? 0); [discriminate|apply IH].
+Qed.
+
+Lemma rangeOf_not_err w mode P ases k0 k1 e : rangeOf w mode P ases k0 k1 <> Err e.
+Proof. unfold rangeOf. destruct (_ && _); [apply widenRange_not_err|discriminate]. Qed.
+
+Theorem splitPeriod_reject w pph seg mode cont ast snr st now ases :
   1 <= pph <= 3600 -> 0 < seg ->
   ((periodDurOf pph * 1000) mod seg <> 0 <->
-   exists e, splitPeriod pph seg mode cont ast snr st now ases = Err e).
+   exists e, splitPeriod w pph seg mode cont ast snr st now ases = Err e).
 Proof.
   intros Hpph Hseg.
   pose proof (periodDur_pos pph Hpph) as HP.
@@ -186,17 +215,19 @@ Proof.
   destruct (periodDurOf pph * 1000 mod seg =? 0) eqn:E; cbn [negb].
   - split; [lia|]. intros [e He]. exfalso.
     replace (periodDurOf pph * 1000 =? 0) with false in He by lia.
+    match type of He with context [rangeOf ?a ?b ?c ?d ?e ?f] => destruct (rangeOf a b c d e f) as [[ka kb]|e'|] eqn:ER end;
+      cbn [bind fst snd] in He; [|exfalso; eapply rangeOf_not_err; exact ER|discriminate].
     match type of He with context [if ?c then _ else _] => destruct c end; [discriminate|].
     revert He. apply mapM_not_err. intros; apply periodOf_not_err.
   - split; [eauto|]. lia.
 Qed.
 
-Theorem splitPeriod_pph_zero seg mode cont ast snr st now ases :
-  splitPeriod 0 seg mode cont ast snr st now ases = Panic "splitPeriod: integer divide by zero".
+Theorem splitPeriod_pph_zero w seg mode cont ast snr st now ases :
+  splitPeriod w 0 seg mode cont ast snr st now ases = Panic "splitPeriod: integer divide by zero".
 Proof. reflexivity. Qed.
 
-Theorem splitPeriod_pph_big pph seg mode cont ast snr st now ases :
-  3600 < pph -> splitPeriod pph seg mode cont ast snr st now ases = Panic "splitPeriod: integer divide by zero".
+Theorem splitPeriod_pph_big w pph seg mode cont ast snr st now ases :
+  3600 < pph -> splitPeriod w pph seg mode cont ast snr st now ases = Panic "splitPeriod: integer divide by zero".
 Proof.
   intros H. unfold splitPeriod.
   replace (pph =? 0) with false by lia.
@@ -290,7 +321,7 @@ Qed.
     presentationTimeOffset is its start in the media timescale. *)
 Theorem splitPeriod_partition pph seg mode cont ast snr st now ases ps j a es :
   1 <= pph <= 3600 -> 0 < seg -> ast <= st <= now ->
-  splitPeriod pph seg mode cont ast snr st now ases = Ok ps ->
+  splitPeriod false pph seg mode cont ast snr st now ases = Ok ps ->
   nth_error ases j = Some a -> templateType mode a <> MNumber -> a_tl a = Some es ->
   let P := periodDurOf pph in
   let k0 := (st - ast) / (P * 1000) in
@@ -377,7 +408,7 @@ Qed.
 
 Theorem splitPeriod_exactly_one pph seg mode cont ast snr st now ases ps j a es :
   1 <= pph <= 3600 -> 0 < seg -> ast <= st <= now ->
-  splitPeriod pph seg mode cont ast snr st now ases = Ok ps ->
+  splitPeriod false pph seg mode cont ast snr st now ases = Ok ps ->
   nth_error ases j = Some a -> templateType mode a <> MNumber -> a_tl a = Some es ->
   let P := periodDurOf pph in
   let k0 := (st - ast) / (P * 1000) in
@@ -416,8 +447,8 @@ Qed.
 (** ids and starts are a function of k only: stable over time *)
 Theorem splitPeriod_ids_stable pph seg mode cont ast snr st1 now1 st2 now2 ases1 ases2 ps1 ps2 p1 p2 :
   1 <= pph <= 3600 -> 0 < seg -> ast <= st1 -> ast <= now1 -> ast <= st2 -> ast <= now2 ->
-  splitPeriod pph seg mode cont ast snr st1 now1 ases1 = Ok ps1 ->
-  splitPeriod pph seg mode cont ast snr st2 now2 ases2 = Ok ps2 ->
+  splitPeriod false pph seg mode cont ast snr st1 now1 ases1 = Ok ps1 ->
+  splitPeriod false pph seg mode cont ast snr st2 now2 ases2 = Ok ps2 ->
   In p1 ps1 -> In p2 ps2 ->
   pd_start p1 = pd_nr p1 * periodDurOf pph /\
   (pd_nr p1 = pd_nr p2 <-> pd_start p1 = pd_start p2).
@@ -440,7 +471,7 @@ Qed.
     start to the period containing now *)
 Theorem splitPeriod_tiles pph seg mode cont ast snr st now ases ps :
   1 <= pph <= 3600 -> 0 < seg -> ast <= st <= now ->
-  splitPeriod pph seg mode cont ast snr st now ases = Ok ps ->
+  splitPeriod false pph seg mode cont ast snr st now ases = Ok ps ->
   let P := periodDurOf pph in
   let k0 := (st - ast) / (P * 1000) in
   let k1 := (now - ast) / (P * 1000) in
@@ -564,9 +595,13 @@ Qed.
 
 (** * publishTime in $Number$ mode *)
 
-Theorem livePeriods_publish loopMS c now tsbdMS pph seg cont ases ps pt :
+Lemma splitPeriod_number_widen w pph seg cont ast snr st now ases :
+  splitPeriod w pph seg MNumber cont ast snr st now ases = splitPeriod false pph seg MNumber cont ast snr st now ases.
+Proof. unfold splitPeriod, rangeOf. now rewrite andb_false_r. Qed.
+
+Theorem livePeriods_publish w loopMS c now tsbdMS pph seg cont ases ps pt :
   1 <= pph <= 3600 -> 0 < seg -> startS c * 1000 <= now -> 0 <= tsbdMS ->
-  livePeriods loopMS c now tsbdMS pph seg MNumber cont ases = Ok (ps, pt) ->
+  livePeriods w loopMS c now tsbdMS pph seg MNumber cont ases = Ok (ps, pt) ->
   pt = Some (startS c + (now - startS c * 1000) / (periodDurOf pph * 1000) * periodDurOf pph).
 Proof.
   intros Hpph Hseg Hs Ht H.
@@ -576,7 +611,8 @@ Proof.
   assert (Hw : wnowMS wt = now) by reflexivity.
   assert (Hst : startS c * 1000 <= startTimeMS wt <= now).
   { unfold wt, calcWrapTimes. cbn [startTimeMS]. destruct (now - tsbdMS <? startS c * 1000) eqn:E; lia. }
-  destruct (splitPeriod pph seg MNumber cont (startS c * 1000) (startNr c) (startTimeMS wt) (wnowMS wt) ases) as [ps'| |] eqn:E; cbn in H; try discriminate.
+  rewrite splitPeriod_number_widen in H.
+  destruct (splitPeriod false pph seg MNumber cont (startS c * 1000) (startNr c) (startTimeMS wt) (wnowMS wt) ases) as [ps'| |] eqn:E; cbn in H; try discriminate.
   rewrite Hw in E.
   destruct (splitPeriod_tiles pph seg MNumber cont (startS c * 1000) (startNr c) (startTimeMS wt) now ases ps' Hpph Hseg Hst E) as (_ & Hstarts & Hle & _).
   unfold lastPeriodStartTime in H.
@@ -595,9 +631,9 @@ Qed.
 
 (** The range check of periods-per-hour sits in verifyAndFillConfig (commit 9fbd9f7): every value
     outside 1..3600 is refused before splitPeriod is reached. *)
-Theorem livePeriods_pph_range loopMS c now tsbdMS pph seg mode cont ases :
+Theorem livePeriods_pph_range w loopMS c now tsbdMS pph seg mode cont ases :
   pph <= 0 \/ 3600 < pph ->
-  livePeriods loopMS c now tsbdMS pph seg mode cont ases = Err pphRangeMsg.
+  livePeriods w loopMS c now tsbdMS pph seg mode cont ases = Err pphRangeMsg.
 Proof. intros H. unfold livePeriods. replace ((pph <=? 0) || (3600 <? pph)) with true by lia. reflexivity. Qed.
 
 (** Inside the range, for an accepted value and AdaptationSets as LiveMPD hands them over (a
@@ -627,7 +663,7 @@ Qed.
 Theorem splitPeriod_total pph seg mode cont ast snr st now ases :
   1 <= pph <= 3600 -> 0 < seg -> (periodDurOf pph * 1000) mod seg = 0 -> ast <= st <= now ->
   Forall (wellShaped mode) ases ->
-  exists ps, splitPeriod pph seg mode cont ast snr st now ases = Ok ps.
+  exists ps, splitPeriod false pph seg mode cont ast snr st now ases = Ok ps.
 Proof.
   intros Hpph Hseg Hacc Hst Hws.
   pose proof (periodDur_pos pph Hpph) as HP.
@@ -640,6 +676,7 @@ Proof.
   replace (periodDurOf pph * 1000 =? 0) with false by lia.
   rewrite (quot_pos (st - ast)), (quot_pos (now - ast)) by lia.
   assert ((st - ast) / (periodDurOf pph * 1000) <= (now - ast) / (periodDurOf pph * 1000)) by (apply Z.div_le_mono; lia).
+  unfold rangeOf. cbn [andb bind fst snd].
   match goal with |- context [if ?c then _ else _] => replace c with false by lia end.
   apply mapM_total. intros k _. unfold periodOf.
   destruct (mapM_total (splitAS mode cont snr k (periodDurOf pph)) ases) as [out ->]; [|cbn; eauto].
@@ -666,10 +703,10 @@ Proof.
   specialize (H pph (In_seqZ 3600 1 pph ltac:(lia))). lia.
 Qed.
 
-Theorem reject_2997 pph mode cont ast snr st now ases :
-  1 <= pph <= 3600 -> exists e, splitPeriod pph 2002 mode cont ast snr st now ases = Err e.
+Theorem reject_2997 w pph mode cont ast snr st now ases :
+  1 <= pph <= 3600 -> exists e, splitPeriod w pph 2002 mode cont ast snr st now ases = Err e.
 Proof.
-  intros Hp. apply (splitPeriod_reject pph 2002 mode cont ast snr st now ases Hp ltac:(lia)).
+  intros Hp. apply (splitPeriod_reject w pph 2002 mode cont ast snr st now ases Hp ltac:(lia)).
   now apply no_period_fits_2002.
 Qed.
 
@@ -679,7 +716,7 @@ Qed.
 Definition atoTL : list pS := [ {| p_t := Some 0; p_d := 180000; p_r := 30 |} ].
 Lemma late_segment_witness :
   existsb (fun x => fst x =? 5400000) (expandP atoTL) = true /\
-  splitPeriod 60 2000 MTimelineTime false 0 0 0 59000
+  splitPeriod false 60 2000 MTimelineTime false 0 0 0 59000
     [ {| a_image := false; a_ts := Some 90000; a_dur := None; a_startNr := None; a_tl := Some atoTL |} ] =
   Ok [ {| pd_nr := 0; pd_start := 0;
           pd_as := [ {| o_pto := 0; o_startNr := None; o_tl := Some [ {| p_t := Some 0; p_d := 180000; p_r := 29 |} ]; o_cont := false |} ] |} ].
@@ -688,7 +725,7 @@ Proof. split; vm_compute; reflexivity. Qed.
 (** $Number$ mode with start number 5 and availabilityStartTime 1000 s: period k (counted from
     availabilityStartTime) gets 5 + k*P*ts/d. *)
 Lemma snr_start_example :
-  splitPeriod 60 2000 MNumber false 1000000 5 1060500 1120500
+  splitPeriod false 60 2000 MNumber false 1000000 5 1060500 1120500
     [ {| a_image := false; a_ts := None; a_dur := Some 2; a_startNr := Some 5; a_tl := None |} ] =
   Ok [ {| pd_nr := 1; pd_start := 60; pd_as := [ {| o_pto := 60; o_startNr := Some 35; o_tl := None; o_cont := false |} ] |};
        {| pd_nr := 2; pd_start := 120; pd_as := [ {| o_pto := 120; o_startNr := Some 65; o_tl := None; o_cont := false |} ] |} ].
